@@ -323,6 +323,38 @@ pub fn run(run: &Run) {
         }
     }
     run.states_add(n_ops);
+    // (e) structured longer strings: the standard signature covenants alone, with instructions appended and with an unknown opcode
+    // appended (a recogniser by prefix must agree with the decoder), and programs around 65536 instructions (16-bit counts)
+    {
+        let mut long: Vec<Vec<u8>> = vec![];
+        for std in [crate::world::cov_legacy(0).to_bytes().to_vec(), crate::world::cov_new(1).to_bytes().to_vec()] {
+            long.push(std.clone());
+            for tail in [vec![OpCode::Noop], vec![OpCode::Loop(60000, 2), OpCode::PushIC(1u8.into()), OpCode::Hash(65535), OpCode::And]] {
+                let mut b = std.clone();
+                b.extend_from_slice(&Covenant::from_ops(&tail).to_bytes());
+                long.push(b);
+            }
+            let mut b = std.clone();
+            b.push(0x00);
+            long.push(b);
+            let mut b = std.clone();
+            b.truncate(b.len() - 1);
+            long.push(b);
+        }
+        for n in [65_535usize, 65_536, 65_537, 70_000, 131_073] {
+            for tail in [vec![], vec![0xf2u8, 0x00], vec![0xf2, 0x01, 0x01], vec![0xf0, 0x05, 0x01]] {
+                let mut b = vec![0x09u8; n];
+                b.extend_from_slice(&tail);
+                long.push(b);
+            }
+        }
+        let outs: Vec<&'static str> = long.par_iter().map(|b| check_bytes(run, b)).collect();
+        for o in &outs {
+            run.outcome(&format!("structured:{}", o));
+        }
+        run.states_add(long.len() as u64);
+        run.set("structured_long_strings", json!(long.len()));
+    }
     run.set("instruction_lists", json!(n_ops));
     run.set("representative_instructions", json!(reps.len()));
     run.sample(json!({"bytes_hex": "f20100", "expected": "rejected (non-canonical PushIC)"}));
